@@ -55,12 +55,12 @@ def run(c):
     sample = hydrolib.corner_sample(cfgs, rng, nrun) if tier == "quick" else [rng.choice(cfgs) for _ in range(nrun)]
     gammas = [1.0001, 1.4, 5. / 3., 2.0]
     shapes = [((1.0, 1.0, 1.0), (0., 0., 0.)), ((1.0, 1.5, 0.8), (0.3, -1.7, 2.9)), ((0.7, 0.7, 0.7), (0., 0., 0.))]
-    kinds = ["contrast", "calm", "vacuum"]
+    kinds = ["contrast", "calm", "vacuum", "supersonic"]
     plan = []
     for k, (n, per) in enumerate(sample):
         side, anchor = shapes[k % len(shapes)]
         # static table check (FaceCover etc.) for the layout
-        plan.append(dict(k=k, n=n, per=per, gamma=gammas[k % 4], side=side, anchor=anchor, kind=kinds[k % 3],
+        plan.append(dict(k=k, n=n, per=per, gamma=gammas[k % 4], side=side, anchor=anchor, kind=kinds[(k + k // 4) % 4],
                          threads=[1, 4][k % 2] if tier == "quick" else rng.choice([1, 2, 4, 8]),
                          cfl=[0.2, 0.05][(k // 2) % 2], seed=rng.randrange(1, 10 ** 6)))
 
